@@ -194,7 +194,12 @@ impl MaxCharsCommandSizeLimiter {
             .map(|(var, value)| count_osstr_chars_for_exec(var) + count_osstr_chars_for_exec(value))
             .sum();
 
-        Self::new(arg_max - ARG_HEADROOM - env_size)
+        // A huge environment leaves no room at all (and must not underflow).
+        Self::new(
+            arg_max
+                .saturating_sub(ARG_HEADROOM)
+                .saturating_sub(env_size),
+        )
     }
 }
 
